@@ -11,7 +11,7 @@ for d in /verif/seeded/$P-*/; do
   if grep -q '^+++ b/.*\.\(c\|cpp\)$' "$d/patch.diff"; then
     VERIF_REPO_SRC=$ROOT/src /venv/bin/python /verif/tools/rebuild_ext.py >/dev/null 2>&1 || { echo "$id: REBUILD FAILED"; rm -rf $ROOT; continue; }
   fi
-  cd /verif; out=$(VERIF_BUDGET_S=${VERIF_BUDGET_S:-900} VERIF_REPO_SRC=$ROOT/src PYTHONPATH=$ROOT/src VERIF_SEED=$SEED /venv/bin/python vcheck.py "$P" --tier quick 2>&1); ce=$?
+  cd /verif; out=$(VERIF_BUDGET_S=${VERIF_BUDGET_S:-900} VERIF_REPO_SRC=$ROOT/src VERIF_EVIDENCE_DIR=/tmp/verif_scratch_evidence PYTHONPATH=$ROOT/src VERIF_SEED=$SEED /venv/bin/python vcheck.py "$P" --tier quick 2>&1); ce=$?
   rm -rf $ROOT
   clauses=$(echo "$out" | grep -o "^  \[[a-z_0-9]*\] clause=[a-z_A-Z0-9]*" | sort -u | head -4 | tr '\n' ';')
   if [ $ce -eq 1 ]; then echo "$id: caught $clauses"; elif [ $ce -eq 0 ]; then echo "$id: MISSED"; else echo "$id: exit $ce (harness error) $(echo "$out" | grep -m1 'harness error' | cut -c1-200)"; fi
